@@ -12,6 +12,7 @@ import (
 	"pgregory.net/rapid"
 
 	"github.com/bytom/bytom/protocol/bc"
+	"github.com/bytom/bytom/protocol/bc/types"
 	"github.com/bytom/bytom/protocol/casper"
 
 	"verif/sim/model"
@@ -32,7 +33,7 @@ type C19Plan struct {
 
 // CEvent is one history event: deliver a block or a validator's vote.
 type CEvent struct {
-	Kind string `json:"k"` // blk | vote
+	Kind string `json:"k"` // blk | vote | tamper (a relay adds a sup link naming an unknown source to the next block's header, the honest copy follows)
 	Pick int    `json:"p,omitempty"`
 	Who  int    `json:"who,omitempty"`
 }
@@ -43,6 +44,9 @@ func genC19(rt *rapid.T) any {
 	n := len(p.Tree.Steps)
 	ne := n + rapid.IntRange(0, n).Draw(rt, "extra")
 	for i := 0; i < ne; i++ {
+		if rapid.IntRange(0, 11).Draw(rt, "tamperq") == 11 {
+			p.Events = append(p.Events, CEvent{Kind: "tamper", Who: rapid.IntRange(0, 3).Draw(rt, "tkind")})
+		}
 		if rapid.IntRange(0, 3).Draw(rt, "evkind") == 3 {
 			p.Events = append(p.Events, CEvent{Kind: "vote", Pick: rapid.IntRange(0, 5).Draw(rt, "target"), Who: rapid.IntRange(0, 3).Draw(rt, "who")})
 		} else {
@@ -64,6 +68,7 @@ func genC19(rt *rapid.T) any {
 // concrete event as executed in pass 1 (re-delivered verbatim in pass 2)
 type concrete struct {
 	desc  string
+	raw   *types.Block // a tampered copy (delivered as is)
 	block *bc.Hash
 	vote  *casper.ValidCasperSignMsg
 	b0    int // boundaries before
@@ -150,7 +155,9 @@ func statusStr(m map[string]int) string {
 func (w *World) applyConcrete(n *Node, c *concrete) error {
 	n.Activate()
 	var err error
-	if c.block != nil {
+	if c.raw != nil {
+		_, err = n.Process(c.raw)
+	} else if c.block != nil {
 		_, err = n.Process(w.Blocks[*c.block])
 	} else {
 		v := *c.vote
@@ -205,6 +212,30 @@ func execC19(t *testing.T, plan any, r *simkit.Run) {
 				remaining = append(remaining[:i:i], remaining[i+1:]...)
 				c.block, c.desc = &h, "deliver "+w.name(h)
 				delivered[h] = true
+			case "tamper":
+				if len(remaining) == 0 {
+					continue
+				}
+				// the block that would be delivered next, with a tampered header (the hash and the
+				// proposer's signature do not cover the sup links); the honest copy stays in the queue
+				tb := copyBlock(w.Blocks[remaining[0]])
+				sl := &types.SupLink{SourceHeight: tb.Height - tb.Height%w.P.E, SourceHash: bc.NewHash([32]byte{0xee, byte(ev.Who)})}
+				if ev.Who%2 == 1 && tb.Height >= w.P.E {
+					// a known source but garbage signatures in every slot
+					src := w.Tree.Nodes[tb.PreviousBlockHash]
+					for src != nil && src.Height%w.P.E != 0 {
+						src = src.Parent
+					}
+					if src != nil {
+						sl.SourceHeight, sl.SourceHash = src.Height, src.Hash
+					}
+				}
+				for i := range sl.Signatures {
+					sl.Signatures[i] = []byte{byte(i), 0xaa, 0x55, byte(ev.Who)}
+				}
+				tb.SupLinks = append(tb.SupLinks, sl)
+				c.raw, c.desc = tb, "deliver tampered "+w.name(remaining[0])
+				r.Count("fault.tampered_header", 1)
 			case "vote":
 				// an honest validator votes for a checkpoint the node has stored
 				var targets []*model.BlockState
@@ -352,9 +383,9 @@ func execC19(t *testing.T, plan any, r *simkit.Run) {
 			intermediate := false
 			if got.chain() != pre.chain() && got.chain() != post.chain() && j > 0 {
 				// One event may connect several blocks (a parent releasing waiting orphans). A stop in the
-				// middle may durably have connected a prefix of them: that is the state of a crash-free node
-				// that received those blocks one by one. Accept it iff the restarted best block lies on the
-				// path from the old to the new best block and the ledger/index are exactly that chain's.
+				// middle leaves a subset of them durably stored: the state of a crash-free node that has
+				// received exactly those blocks so far. Accept it iff the restarted best block is what the
+				// fork-choice rule selects over the stored blocks and the ledger/index are exactly that chain's.
 				var gb *model.BlockState
 				for _, h := range w.Order {
 					if w.name(h) == got.Best {
@@ -370,7 +401,7 @@ func execC19(t *testing.T, plan any, r *simkit.Run) {
 						qb = w.Tree.Nodes[h]
 					}
 				}
-				if gb != nil && pb != nil && qb != nil && model.IsAncestor(gb, qb) {
+				if gb != nil && pb != nil && qb != nil {
 					// the restarted best block lies on the chain the event ends on: accept iff it is exactly what
 					// the fork-choice rule selects over the blocks that are durably stored, with that chain's ledger and index
 					ctx2 := fmt.Sprintf("restart after crash %s at intermediate block %s", what, got.Best)
@@ -482,7 +513,7 @@ func SpecC19() simkit.Spec {
 		Rule: "bounded single-node histories (block deliveries incl. forks and reordering, honest validator votes that justify/finalize) run crash-free on the simulated disk with every write boundary logged; then for every boundary k (quick tier: every Stride-th, Stride 1-3 drawn; thorough: every one) the node is restarted from exactly the first k durable writes: it must start, its (best, height index, utxo set, finalized, justified) must be a state the crash-free run had immediately before or after the interrupted event, and re-delivering the history must reach the crash-free final state; " +
 			"distinct = hash of the crash-free trace; every run is non-trivial (>= 1 boundary checked)",
 		Components:  nodeComponents,
-		FaultKinds:  []string{"fault.crash_restart"},
+		FaultKinds:  []string{"fault.crash_restart", "fault.tampered_header"},
 		Probes:      []string{"probe.crash_inside_reorg", "probe.finality_reached", "events.vote", "probe.restart_at_intermediate_block"},
 		Assumptions: []string{"durability model as the property states: each Set/Delete/batch commit is atomic and durable, nothing later survives", "simdisk is a stub of the storage engine (its equivalence with goleveldb is C20's subject)"},
 	}
